@@ -177,7 +177,7 @@ func TestC13(t *testing.T) {
 	if evThorough() {
 		nlay = 8
 	}
-	check(rec, "layout-random", scale(8000, 200000), func(rt *rapid.T) {
+	check(rec, "layout-random", scale(8000, 2500000), func(rt *rapid.T) {
 		base, family := c13Base(rt)
 		r := ast.Render(base.Prog, ast.Full)
 		c := &C13Case{Base: base}
